@@ -685,6 +685,8 @@ def _run_determinism(spec, idx, ctx):
     mode = "grid" if rng.random() < 0.4 else "random"
     ratio = _valid_ratio(rng, J, mode)
     seed = int(rng.integers(1 << 30))
+    if idx % 4 == 0:
+        seed = [0, 1, 2**32 - 1, 2**32, 2**63 - 1][(idx // 4) % 5]  # special seeds: 0 is a seed like any other; 32-bit boundary for the torch generator
     dataset = rng.random() < 0.25
     init = "uniform" if rng.random() < 0.7 else None
     truth = bool(rng.random() < 0.3)
